@@ -19,6 +19,7 @@ GETTERS = {
     "synapse": ["dt", "delay", "batchsz", "inplace", "shape"],
     "connection": ["dt", "batchsz", "inshape", "outshape", "biased", "delayedby"],
     "reducer": ["dt", "duration", "inplace"],
+    "record": ["dt", "duration", "inclusive"],
 }
 
 
@@ -38,7 +39,30 @@ def mk_reducer(spec):
     raise ValueError(cls)
 
 
+class RecOwner:
+    """a bare RecordTensor exercised through its own temporal setters"""
+
+    def __init__(self, spec):
+        from inferno.core.infrastructure import Module
+        self.m = Module()
+        val = None if spec.get("uninit") else torch.zeros(spec["shape"], dtype={"float": torch.float64, "bool": torch.bool, "int": torch.int64}[spec.get("dtype", "float")])
+        RecordTensor.create(self.m, "rec", spec["dt"], spec["duration"], val, inclusive=spec.get("inclusive", False))
+        self.spec = spec
+
+    dt = property(lambda s: s.m.rec.dt, lambda s, v: setattr(s.m.rec, "dt", v))
+    duration = property(lambda s: s.m.rec.duration, lambda s, v: setattr(s.m.rec, "duration", v))
+    inclusive = property(lambda s: s.m.rec.inclusive, lambda s, v: setattr(s.m.rec, "inclusive", v))
+
+    def named_modules(self):
+        return self.m.named_modules()
+
+    def clear(self):
+        self.m.rec.reset(0)
+
+
 def build(family, spec):
+    if family == "record":
+        return RecOwner(spec)
     if family == "neuron":
         return factory.build_neuron(spec)
     if family == "synapse":
@@ -70,7 +94,7 @@ def apply_target(family, spec, target):
                 s["batch"] = v
             elif a == "synapse":
                 s["synapse"] = v
-        elif family == "reducer":
+        elif family in ("reducer", "record"):
             s[a] = v
     return s
 
@@ -96,9 +120,11 @@ def records(obj):
         for k, v in vars(mod).items():
             if isinstance(v, RecordTensor):
                 out[f"{name}.{k}"] = [v.recordsz, v.dt, v.duration, v.inclusive,
-                                      None if v.shape is None else list(v.shape)]
+                                      None if v.shape is None else list(v.shape),
+                                      None if v.value is None else str(v.value.dtype)]
             elif isinstance(v, ShapedTensor):
-                out[f"{name}.{k}"] = [None if v.value is None else list(v.value.shape)]
+                out[f"{name}.{k}"] = [None if v.value is None else list(v.value.shape),
+                                      None if v.value is None else str(v.value.dtype)]
     return out
 
 
@@ -134,6 +160,12 @@ def drive(family, obj, spec, T, seed):
             x = (torch.rand((2, 3), generator=g) < 0.4).double()
             obj(x)
             outs.append([obj.peek().clone()])
+        elif family == "record":
+            rec = obj.m.rec
+            x = (torch.rand(spec["shape"], generator=g) < 0.5)
+            x = x if spec.get("dtype") == "bool" else (x.long() * (t + 1) if spec.get("dtype") == "int" else x.double() * (t + 1))
+            rec.push(x)
+            outs.append([rec.readrange(rec.recordsz, 1).clone(), torch.tensor(rec.recordsz), torch.tensor(rec.pointer)])
     return outs
 
 
@@ -189,7 +221,7 @@ def run_case(case):
         return {"ok": False, "what": "history_size", "detail": f"internal histories differ (setter path, fresh): {d}"}
     for t, (a, b) in enumerate(zip(ox, oy)):
         for i, (u, v) in enumerate(zip(a, b)):
-            if u.shape != v.shape or maxdiff(u, v) > 0:
+            if u.shape != v.shape or u.dtype != v.dtype or maxdiff(u, v) > 0:
                 return {"ok": False, "what": "output", "detail": f"step {t} observable {i} differs between setter path and fresh component"}
     return {"ok": True, "events": int(sum(float(o[0].double().abs().sum()) for o in ox) > 0)}
 
